@@ -39,6 +39,7 @@ let parse_op s =
        else Some (OVp ((if es < 0 then None else Some (nat_of_int es)), d, ring, rnds))
      | "L", [es] -> Some (OSel (nat_of_int (int_of_string es)))
      | "N", [es] -> Some (ONext (nat_of_int (int_of_string es)))
+     | "F", [es] -> Some (OFlush (nat_of_int (int_of_string es)))
      | "D", [] -> Some ODrain
      | _ -> failwith ("bad op " ^ s))
 
